@@ -185,6 +185,7 @@ func init() {
 		r.Decides("pruneBranchesInternal's result flag is monotone; every Set writes a zero value into an empty struct-pointer/ordered-map field; ordered maps are recognised before struct pointers are dereferenced (no reflection into unexported fields); non-pointer leaves are compared with their type's zero value.",
 			"idempotence; BuildEmptyTree∘Prune identity at value level.")
 		rulePrune(c, r)
+		rulePruneDescend(c, r)
 		ruleSliceEmptiness(c, r, 3)
 	})
 	register("C18", func(c *Ctx, r *Report) {
